@@ -574,6 +574,37 @@ def model(A, fn, frame, b, t, st, name):
             st.store.add(sl.sub(v[2][0]).addc(1))
             return ret(("opt", None, ("tuple", (("int", sl), TOP)), "Option"))
         return ret(("opt", None, None, "Option"))
+    if matches(n, "slice::windows", "slice::chunks", "slice::chunks_exact", "slice::chunks_mut", "slice::rchunks", "Iterator::step_by") or \
+            n in ("core::slice::windows", "core::slice::chunks", "core::slice::chunks_exact"):
+        k = int_of(A, st, A.arg(st, frame, t, 1))
+        A.require(st, fn, b, "nonzero-size", "%s size is not zero" % n.rsplit("::", 1)[-1], [Lin.const(1).sub(k) if k is not None else None])
+        return ret(None)
+    if matches(n, "slice::split_at", "slice::split_at_mut", "str::split_at", "Vec::split_off", "String::split_off") or n in ("core::slice::split_at", "core::str::split_at"):
+        s = seq_of(A, st, A.arg(st, frame, t, 0))
+        k = int_of(A, st, A.arg(st, frame, t, 1))
+        A.require(st, fn, b, "split-point", "split point <= len", [k.sub(s[1]) if s is not None and k is not None else None])
+        if ("str" in n or "String" in n) and s is not None:
+            sx = A.site(fn, b, "str-boundary", "split point falls on a char boundary")
+            if not st.bottom:
+                sx.seen += 1
+                if not is_cb(st, s, k):
+                    if sx.ok:
+                        sx.fail_detail = "cannot show that %s is a char boundary" % (k,)
+                    sx.ok = False
+        if matches(n, "Vec::split_off", "String::split_off"):
+            kk = A.recv_key(st, frame, t, 0)
+            if kk is not None and k is not None and s is not None:
+                A.write_key(st, kk, ("seq", k, frozenset(), fresh_ident(A)))
+                return ret(("seq", s[1].sub(k), frozenset(), fresh_ident(A)))
+            A.havoc_call(fn, frame, b, t, st, [])
+        return ret(None)
+    if matches(n, "slice::swap", "Vec::swap") or n == "core::slice::swap":
+        s = seq_of(A, st, A.arg(st, frame, t, 0))
+        i1 = int_of(A, st, A.arg(st, frame, t, 1))
+        i2 = int_of(A, st, A.arg(st, frame, t, 2))
+        A.require(st, fn, b, "index", "swap indices < len", [i1.sub(s[1]).addc(1) if s is not None and i1 is not None else None,
+                                                             i2.sub(s[1]).addc(1) if s is not None and i2 is not None else None])
+        return ret(None)
     if matches(n, "Iterator::sum", "Iterator::product"):
         # panics on overflow (with overflow checks): a class-B obligation the caller's rule has to classify
         A.require(st, fn, b, "iter-sum", "the %s of the iterator's items does not overflow %s" % (n.rsplit("::", 1)[-1], dest_ty), [None], cls="B")
